@@ -16,6 +16,7 @@ import LA.Model.Uu
 import LA.Model.B64
 import LA.Model.UuRead
 import LA.Model.ReadAhead
+import LA.Model.Drive
 import LA.Gen.Limits
 namespace LA.Flt
 open LA.UuRead
@@ -50,6 +51,15 @@ def fnv64 (bs : List Nat) : UInt64 :=
 def hex16 (v : UInt64) : String :=
   let ds := Nat.toDigits 16 v.toNat
   String.ofList (List.replicate (16 - ds.length) '0' ++ ds)
+
+/-- CRC-32 (reflected, polynomial 0xEDB88320), as zlib's `crc32`. -/
+def crc32 (bs : List Nat) : Nat :=
+  let step (c : UInt32) (b : Nat) : UInt32 := Id.run do
+    let mut x := c ^^^ b.toUInt32
+    for _ in [0:8] do
+      x := if x &&& 1 == 1 then (x >>> 1) ^^^ 0xEDB88320 else x >>> 1
+    return x
+  ((bs.foldl step 0xFFFFFFFF) ^^^ 0xFFFFFFFF).toNat
 
 def sizeHash (bs : List Nat) : String := s!"{bs.length}:{hex16 (fnv64 bs)}"
 
@@ -226,7 +236,21 @@ def stepLine (_ : Unit) (op obs : String) : Unit × String :=
         -- the read filter never raises ZSTD_d_windowLogMax above the library default (27)
         ((), whalf ++ s!" enc={obsField obs "enc"}{psig} r=fatal hdr=- data=ok dec={sizeHash []} eq=0@0 ubytes=-1 rcodes=- rnames=- end=- close=ok")
       else
-        ((), whalf ++ s!" enc={obsField obs "enc"}" ++ psig ++ readerHalf "ok" p p codes)
+        -- a lone gzip filter: the member framing is libarchive's own (LA.Drive.gzHeader / gzTrailer)
+        let gz :=
+          if stack == ["gzip"] ∧ bb.endsWith "/1" then
+            let off := opts.splitOn ";" |>.any (· == "gzip:!timestamp")
+            let obsgz := obsField obs "gz"
+            let mt := if off then 0 else
+              match LA.parseHex ((obsgz.drop 8).take 8).toString with
+              | some [a, b, c, d] => a + b * 256 + c * 65536 + d * 16777216
+              | _ => 0
+            let level := (opts.splitOn ";").foldl (fun acc t =>
+              if t.startsWith "gzip:compression-level=" then ((t.drop 23).toString.toNat?).getD acc else acc) 100
+            " gz=" ++ LA.toHex (LA.Drive.gzHeader mt level) ++ ":" ++
+              LA.toHex (LA.Drive.gzTrailer (crc32 p) (p.length % 4294967296))
+          else ""
+        ((), whalf ++ s!" enc={obsField obs "enc"}" ++ gz ++ psig ++ readerHalf "ok" p p codes)
     | _, _, _ => ((), "bad-op")
   | ["mm", fl, _, pa, _, pb, _, mode] =>
     match parsePayload pa, parsePayload pb, (fl.splitOn ",").mapM writeCode with
@@ -234,6 +258,16 @@ def stepLine (_ : Unit) (op obs : String) : Unit × String :=
       if mode == "all" ∧ obsField obs "psig" == "1" then ((), obs) else
       ((), s!"wa=ok wb=ok wcodes={codesStr codes} encA={obsField obs "encA"} encB={obsField obs "encB"} psig={obsField obs "psig"}" ++
            readerHalf "ok" (a ++ b) (a ++ b) codes)
+    | _, _, _ => ((), "bad-op")
+  | ["gz", hh, pl, tt, _] =>
+    match LA.parseHex hh, parsePayload pl, LA.parseHex tt with
+    | some h, some p, some t =>
+      -- the deflate bytes are zlib's; the header length is what `peek_at_header` must find
+      let dn := (obsField obs "member").toNat?.getD 0 - h.length - t.length
+      let probe := h ++ List.replicate dn 0 ++ t
+      if LA.Drive.peekAtHeader probe == h.length ∧ h.length ≠ 0 ∧ t.length == 8 then
+        ((), s!"member={obsField obs "member"}" ++ readerHalf "ok" p p [1])
+      else ((), obs)
     | _, _, _ => ((), "bad-op")
   | _ => ((), "bad-op")
 
